@@ -144,10 +144,10 @@ def check_case(prop, case, il, ml, ctx):
         _kind(ctx, op + ":" + (il.split("|", 1)[0] if op == "R" else "x"))
     elif op in ("K", "T", "L", "P", "S", "G"):
         want = M.get("s") if mode == "spec" else None
-        for key in ("m", "n", "c"):
+        for key in ("m", "n", "c", "f"):
             if key not in I:
                 continue
-            exp = want if want is not None else M.get(key if key != "n" or "n" in M else "m")
+            exp = want if want is not None else M.get(key if key not in ("n", "f") or key in M else "m")
             if exp is None or exp == "SKIPPED":
                 continue
             _eq(probs, f"{op}/{key}", I[key], exp)
@@ -160,6 +160,8 @@ def check_case(prop, case, il, ml, ctx):
             probs.append(f"{op}: cache answer differs from mapper answer: {I['c'][:160]!r} vs {I['m'][:160]!r}")
         if mode == "spec" and "m" in I and "n" in I and I["m"] != I["n"]:
             probs.append(f"{op}: mapper answers differ with/without parameter index")
+        if "m" in I and "f" in I and I["m"] != I["f"]:
+            probs.append(f"{op}: the mapper built by From<(&str, bool)> answers {I['f'][:120]!r}, the one built by new_with_param_mapping {I['m'][:120]!r}")
         ans = I.get("m", "")
         _nontrivial(ctx, case, ans not in ("~", "[]", "") and not (op == "S" and ans == case.split(" ")[1]))
         _kind(ctx, f"{op}:" + ("hit" if ans not in ("~", "[]") else "miss"))
@@ -226,6 +228,16 @@ def check_case(prop, case, il, ml, ctx):
             probs.append("U: the uuid of a buffer whose content was replaced in place (same address, same length) is not the uuid of its current bytes")
         _nontrivial(ctx, case, True)
         _kind(ctx, "U")
+    elif op == "YA":
+        for key in ("m", "n", "c"):
+            if I.get(key, "1") != "1":
+                probs.append(f"typed remapping ({key}) of a trace built from constructors is not the node-by-node remapping of its elements")
+        if I.get("mc", "1") != "1" and mode == "spec" and ctx["stats"].get("cur_dom") is not False:
+            probs.append("typed remapping: cache and mapper disagree on a trace built from constructors")
+        if "PANIC" in il:
+            probs.append("typed remapping panicked")
+        _nontrivial(ctx, case, " p:" in case)
+        _kind(ctx, "YA:" + ("with-params" if " p:" in case else "lines-only"))
     elif op == "A":
         _eq(probs, "A/print", I.get("p", ""), M.get("p", ""))
         if I.get("rt") != "1":
@@ -253,7 +265,25 @@ def check_case(prop, case, il, ml, ctx):
         _nontrivial(ctx, case, len(I.get("w", "")) > 60)
         _kind(ctx, "W")
     elif op == "X" or op in ("k", "t", "l", "p", "s", "g"):
+        # the same bytes at the other addresses modulo 8 (implementation only)
+        # A panic is a violation for every buffer (C12); an address-dependent answer only for valid files and
+        # their strict prefixes (C11: rejected, or answered exactly like the full file) — a corrupted or
+        # header-edited buffer may legitimately be read differently when its sections land elsewhere.
         st = ctx["stats"].setdefault("xstate", {"kind": None, "ref": {}, "accepted": False})
+        kind_now = (expected[0] if expected else None) if op == "X" else st["kind"]
+        strict = kind_now in ("full", "prefix")
+        if ";mis=" in il:
+            il, flags = il.split(";mis=", 1)
+            for fl in flags.split(","):
+                if fl.endswith("P"):
+                    probs.append("parse panicked on the buffer placed at address %s modulo 8" % fl[:-1])
+                elif strict:
+                    probs.append("the buffer at address %s modulo 8 is accepted although the aligned buffer with the same bytes is rejected" % fl[:-1])
+        if ";misdiff=" in il:
+            il, flags = il.split(";misdiff=", 1)
+            if strict:
+                probs.append(f"the buffer at address {flags} modulo 8 is accepted but answers this query differently from the aligned buffer")
+        I = kv(il)
         if op == "X":
             st["kind"] = expected[0] if expected else None
             st["accepted"] = (il == "r=ok")
@@ -308,6 +338,16 @@ def extra_checks(prop, tier, seed, harness, sh):
                 else:
                     failures.append(("deep", f"stack overflow in the recursive typed API on a cause chain of depth {depth} "
                                      f"(process status {rc})", f"vharness deep {depth}", ""))
+    if prop in ("C12", "C13", "C16"):
+        # descriptors with very many array dimensions / parameters (the model's formatter is quadratic there)
+        for n in ((3000, 200000) if prop != "C16" or tier != "quick" else (3000,)):
+            rc, out = sh([harness, "deepsig", str(n)], timeout=600)
+            ok = rc == 0 and "done" in out and out.count("same=true some=true") == 2
+            lines.append(f"descriptor with {n} dimensions / parameters: {'ok' if ok else 'process died / wrong (status %d)' % rc}")
+            stats[f"deepsig{n}:{'ok' if ok else 'died'}"] = 1
+            if not ok:
+                failures.append(("deepsig", f"deobfuscate_signature on a descriptor with {n} array dimensions / parameters failed "
+                                 f"(status {rc}): {out[-200:]}", f"vharness deepsig {n}", ""))
     return failures, lines, stats
 
 
